@@ -224,7 +224,9 @@ def obs_list_case(draw, tier, nmin, nmax, single=False, with_cov=True, idl_mode=
         glob['S_global'] = draw(st.sampled_from([1.0, 3.0, 0.0]))
     if draw(st.integers(0, 5)) == 0:
         glob['S_dict'] = {e: draw(st.sampled_from([1.0, 2.5, 0.0])) for e in ens_all[:1]}
-    return {'lay': lay, 'fields': fields, 'prims': prims, 'entries': entries, 'glob': glob}
+    # overall magnitude of the Monte-Carlo data: correlations are scale invariant
+    xscale = draw(st.sampled_from([1.0, 1.0, 1.0, 1e-6, 1e-5, 1e-4, 1e5]))
+    return {'lay': lay, 'fields': fields, 'prims': prims, 'entries': entries, 'glob': glob, 'xscale': xscale}
 
 
 # =================================================================================================
@@ -241,7 +243,7 @@ def chain_x(spec, ch, cache):
         x = x + c * f[pos]
     if ch.get('own'):
         x = x + ch['own']['c'] * samples(ch['own']['recipe'], g['len'])[pos]
-    return x
+    return x * float(spec.get('xscale', 1.0))
 
 
 def build_prim(pe, spec, prim, cache):
@@ -846,6 +848,7 @@ def errband_case(draw, tier):
     model = draw(st.sampled_from(sorted(MODEL_NPAR)))
     n = MODEL_NPAR[model]
     case = draw(obs_list_case(tier, n, n))
+    case['xscale'] = 1.0        # the parameters enter exponentials: keep them of order one here
     x = draw(st.lists(st.one_of(gen.fl(-2, 2), st.sampled_from([0.0, 1.0])), min_size=1, max_size=6))
     return {'case': case, 'model': model, 'x': x, 'x_array': draw(st.booleans())}
 
